@@ -341,6 +341,9 @@ PROPS.update({
                        'the variants only through the set of their lower-cased forms) give both-fail-or-equal for LanguageIdentifier; leaf parsers are case-insensitive by their Kani contracts',
     },
 })
+B_MATCH = B('matches', 'LanguageIdentifier::matches and Locale::matches on the product domain of the statement: (3 languages x 3 scripts x 3 regions x 4 variant lists) squared x 4 flag '
+                     'pairs x extension shapes (none, -u-ca-buddhist, -x-priv) per side, against the wildcard formula')
+PROPS['C11']['bounded'] = [B_MATCH]
 PROPS['C10']['bounded'] = [B_MUT]
 PROPS['C04']['bounded'] = [B_RT, B_MUT]
 PROPS['C10']['standin'] = ['locale']
